@@ -55,7 +55,7 @@ type vfSrvState struct {
 }
 
 func vfSrvMake(scn string) (func(), func(*vsched.Exec) (string, *vsched.Violation)) {
-	cfg := map[string]int{"w": 1, "q": 1, "r": 2, "stop": 1, "late": 1, "y": 1, "c": 0, "s": 1, "on": 0, "slow": 0}
+	cfg := map[string]int{"w": 1, "q": 1, "r": 2, "stop": 1, "late": 1, "y": 1, "c": 0, "s": 1, "on": 0, "slow": 0, "junk": 0}
 	for _, kv := range strings.Split(scn, ",") {
 		p := strings.SplitN(kv, "=", 2)
 		if len(p) == 2 {
@@ -124,6 +124,11 @@ func vfSrvMake(scn string) (func(), func(*vsched.Exec) (string, *vsched.Violatio
 		}
 		vsched.GoNamed("driver", true, func() {
 			conn.WaitSubsEver(cfg["s"])
+			// requests too short to hold a frame (0-3 bytes) ahead of the real ones: they are to be
+			// dropped, and nothing else may change because of them
+			for j := 0; j < cfg["junk"]; j++ {
+				conn.PublishRequest(subjects[0], fmt.Sprintf("reply.junk%d", j), [][]byte{{}, {9}, {0, 0, 7}}[j%3])
+			}
 			for i := 1; i <= cfg["stop"]; i++ {
 				pub(i)
 			}
@@ -264,6 +269,11 @@ func init() {
 			// a backed-up server: every request takes 6 s of virtual time, so the queued ones are older
 			// than the 5 s high watermark when a worker gets to them (default request hooks)
 			out = append(out, "w=1,q=4,r=4,stop=4,late=0,y=0,slow=1,c=0", "w=2,q=4,r=5,stop=5,late=0,y=0,slow=1,c=0", "w=1,q=1,r=4,stop=4,late=0,y=0,slow=1,c=0")
+			// undersized requests first (as many as there are workers, and one more)
+			out = append(out, "w=1,q=1,r=2,stop=2,late=0,y=1,junk=1,c=0", "w=2,q=2,r=3,stop=3,late=0,y=1,junk=2,c=0", "w=1,q=0,r=3,stop=3,late=0,y=1,junk=2,c=0")
+			if tier == "thorough" {
+				out = append(out, "w=2,q=1,r=3,stop=2,late=1,y=1,junk=3,c=0", "w=1,q=2,r=3,stop=3,late=0,y=0,junk=3,c=0")
+			}
 			return out
 		},
 		Make: vfSrvMake,
